@@ -25,6 +25,17 @@ def gen_case(rng, W, threads):
         g.new()
     g.emit("nr")
     g.program(rng.randint(3, 24))
+    nonfinite = rng.random() < 0.3
+    if nonfinite:
+        # non-finite and non-integer multipliers (Inf*0 = NaN must appear in the parallel result exactly where it appears in
+        # the serial one): judged by the serial-vs-parallel oracle only, the integer model does not apply
+        live = list(g.live)
+        for _ in range(rng.randint(2, 6)):
+            g.emit("adep %d %d %s" % (rng.choice(live), rng.choice(live), rng.choice(["inf", "-inf", "nan", "0.5", "1e300", "0"])))
+            if rng.random() < 0.5:
+                toks, val = g.expr(1)
+                k = rng.choice(live); g.live[k] = val
+                g.emit("asg %d %s" % (k, " ".join(toks)))
     g.emit("tape")
     choices = sorted(set([1, W, W + 1, 2 * W - 1, 2 * W, 2 * W + 1, 3 * W + 1, 4 * W + 3, 5 * W]) - {0, -1})
     n = rng.choice(choices); m = rng.choice(choices)
@@ -54,7 +65,8 @@ def gen_case(rng, W, threads):
         g.emit("ompstat")
     g.emit("tape")
     g.emit("threads 1")
-    return g.ops, {"queries": q, "indep": indep, "dep": dep, "n": n, "m": m, "pairs": pairs, "threads": threads, "W": W}
+    return g.ops, {"queries": q, "indep": indep, "dep": dep, "n": n, "m": m, "pairs": pairs, "threads": threads, "W": W,
+                   "nonfinite": nonfinite}
 
 
 def run_cases(ctx, exe, label, cases):
@@ -68,7 +80,9 @@ def run_cases(ctx, exe, label, cases):
             ctx.violation("implementation stopped on a parallel-Jacobian case (%s): rc=%s %s" % (label, rc, err[-1200:]),
                           {"kind": "crash", "build": label, "ops": ops, "stderr": err[-3000:], "impl": il})
             break
-        verdict = c02.oracle_case(ops, meta, il)
+        verdict = None if meta.get("nonfinite") else c02.oracle_case(ops, meta, il)
+        if meta.get("nonfinite"):
+            ctx.notes["nonfinite_cases"] = ctx.notes.get("nonfinite_cases", 0) + 1
         if verdict == "skip":
             ctx.notes["skipped_inexact"] = ctx.notes.get("skipped_inexact", 0) + 1
             continue
@@ -97,7 +111,7 @@ def run_cases(ctx, exe, label, cases):
             ctx.nbad += 1
             if ctx.nbad <= 2:
                 ctx.violation("%s [build %s]" % (verdict, label), {"kind": "oracle", "build": label, "ops": ops, "impl": il, "message": verdict})
-        else:
+        elif not meta.get("nonfinite"):
             il2 = ["O" if l.startswith("O") else l for l in il]
             d = vcheck.first_diff(il2, ml)
             if d is not None:
